@@ -45,6 +45,9 @@ func DeserializeStringArray(data []byte) ([]string, error) {
 	if eof {
 		return nil, fmt.Errorf("source.NextVarUint error")
 	}
+	if n > source.Len() {
+		return nil, fmt.Errorf("string array length %d exceeds the remaining data", n)
+	}
 	result := make([]string, 0, n)
 	for i := 0; uint64(i) < n; i++ {
 		ss, eof := source.NextString()
